@@ -74,6 +74,9 @@ func runC05(c *core.Ctx) {
 			caseID := fmt.Sprintf("%s/s%d", cv.Name(), si)
 			ch := r.Range(1, 8)
 			ks, kd := r.Range(0, 24), r.Range(0, 24)
+			if si%11 == 10 { // long buffers: paths that depend on the buffer length
+				ks, kd = r.Range(100, 700), r.Range(100, 700)
+			}
 			ss := r.Range(0, ks)
 			se := r.Range(ss, ks)
 			ds := r.Range(0, kd)
